@@ -24,7 +24,18 @@ the single renderings there are
    patterns that match the report's own files (directories, extensions, base names, `*`, negation),
    Configuration.repository and Configuration.verbose set - the property quantifies over reports, not over
    the configuration of the process that renders them;
- * console WIDTHS for the text overview (only where rich says the table fits without wrapping)."""
+ * console WIDTHS for the text overview (only where rich says the table fits without wrapping).
+
+Round 5:
+ * TOTALS-PRESERVING pairs: a previous report with the same five totals as the current one and other per-language
+   figures (files moved between languages) - in the pair stream, through report_command and through the CLI entry
+   function `codelimit.__main__.report(path, diff, format)` in a fresh interpreter (OBSERVATION POINTS);
+ * SIZE x CONFIGURATION: totals with figures 10^0 .. 10^7 per column (Reports whose `codebase.totals` hold them) on
+   consoles 40 .. 300 columns wide; the text overview is read back COLUMN BY COLUMN (rich wraps `1200 (+100)` over two
+   lines on a narrow console) and must show every language name, figure and annotation completely wherever the console
+   is wide enough for every word of the table (`h4_round5.fits_wrapped`); consoles narrower than that are counted
+   (`too_narrow`, `too_narrow_truncated`: the unchanged tree cuts cells with an ellipsis there - an observation);
+   the same through report_command with COLUMNS = 80 .. 120 on reports with thousands of functions and 10^4 .. 10^7 lines."""
 import contextlib
 import io
 import os
@@ -38,6 +49,7 @@ sys.path.insert(0, os.path.join(os.path.dirname(os.path.dirname(os.path.dirname(
 import common
 import logic
 import h4_support as h4
+import h4_round5 as r5
 
 ID = "C18"
 TRUSTED = [
@@ -248,8 +260,9 @@ def real_findings(report, fmt, full):
 
 # ------------------------------------------------------------------ the real commands
 
-def with_commands(cur_files, prev_files, repo):
-    """write the reports with ReportWriter, run report_command / findings_command on them;
+def with_commands(cur_files, prev_files, repo, width=None, fresh=False, findings=True):
+    """write the reports with ReportWriter, run report_command / findings_command on them (fresh: the CLI entry functions
+    `codelimit.__main__.report / findings` in a fresh interpreter per call) on a console `width` columns wide (COLUMNS);
     -> (report as read back, previous as read back, {(kind, fmt, full): stdout})"""
     from pathlib import Path
     from codelimit.commands.findings import findings_command
@@ -259,7 +272,7 @@ def with_commands(cur_files, prev_files, repo):
     from codelimit.common.report.ReportWriter import ReportWriter
     d = tempfile.mkdtemp(prefix="c18_")
     old_cols = os.environ.get("COLUMNS")
-    os.environ["COLUMNS"] = str(WIDTH)
+    os.environ["COLUMNS"] = str(width or WIDTH)
     try:
         cache = Path(d) / ".codelimit_cache"
         cache.mkdir()
@@ -273,12 +286,21 @@ def with_commands(cur_files, prev_files, repo):
             diff_path.write_text(pjs)
             diff = ReportReader.from_json(pjs)
         outs = {}
+        if fresh:
+            for fmt in ("text", "markdown"):
+                code, out, err = r5.run_entry({"command": "report", "path": d, "diff": str(diff_path) if diff_path else None, "format": fmt},
+                                              cwd=d, columns=width or WIDTH)
+                outs[("report", fmt, None)] = out if code == 0 else "EXIT %s\n%s\n%s" % (code, out, err[-800:])
+            for fmt, full in (("text", False), ("markdown", True)) if findings else ():
+                code, out, err = r5.run_entry({"command": "findings", "path": d, "full": full, "format": fmt}, cwd=d, columns=width or WIDTH)
+                outs[("findings", fmt, full)] = out if code == 0 else "EXIT %s\n%s\n%s" % (code, out, err[-800:])
+            return report, diff, outs
         for fmt in (ReportFormat.text, ReportFormat.markdown):
             buf = io.StringIO()
             with contextlib.redirect_stdout(buf):
                 report_command(Path(d), fmt, diff_path)
             outs[("report", fmt.value, None)] = buf.getvalue()
-            for full in (False, True):
+            for full in (False, True) if findings else ():
                 buf = io.StringIO()
                 with contextlib.redirect_stdout(buf):
                     findings_command(Path(d), full, fmt)
@@ -476,6 +498,8 @@ def gen_pair(rnd):
         prev = [list(f) for f in cur]
         rnd.shuffle(prev)
         return cur, prev, "equal"
+    if r < 0.42 and len(langs) >= 2:
+        return cur, moved_between_languages(rnd, cur, langs), "equal-totals"
     prev, kinds = [], set()
     for lang in langs:
         mine = [f for f in cur if f[1] == lang]
@@ -506,6 +530,146 @@ def gen_pair(rnd):
             kinds.add("removed")
     rnd.shuffle(prev)
     return cur, prev, "+".join(sorted(kinds)) or "empty"
+
+
+def moved_between_languages(rnd, cur, langs):
+    """a previous report with the SAME five totals as `cur` but other per-language figures: some files carry another
+    language of the code base (a file migrated from one language to another with its functions: `git mv cart.js cart.ts`)"""
+    prev = [list(f) for f in cur]
+    k = rnd.randint(1, max(1, len(prev) // 2))
+    for f in rnd.sample(prev, min(k, len(prev))):
+        other = rnd.choice([l for l in langs if l != f[1]])
+        f[1] = other
+        f[0] = f[0].rsplit(".", 1)[0] + "." + EXT[other]
+    seen = set()
+    for f in prev:                      # paths stay distinct
+        while f[0] in seen:
+            f[0] = "m/" + f[0]
+        seen.add(f[0])
+    rnd.shuffle(prev)
+    return prev
+
+
+def gen_equal_totals_pair(rnd):
+    langs = rnd.sample(LANGS, rnd.choice([2, 2, 3, 4]))
+    cur = gen_codebase(rnd, langs)
+    return cur, moved_between_languages(rnd, cur, langs)
+
+
+HEADERS = ["Language", "Files", "Functions", "Lines of Code", "\u26a0", "\u2716"]
+
+
+def build_totals_report(tot):
+    """a real Report whose codebase.totals hold the given figures ([[language, files, functions, loc, hard, unmaintainable], ...]
+    in insertion order): the overview reads nothing else"""
+    from codelimit.common.Codebase import Codebase
+    from codelimit.common.LanguageTotals import LanguageTotals
+    from codelimit.common.report.Report import Report
+    cb = Codebase("/r")
+    for lang, files, functions, loc, hard, unm in tot:
+        t = LanguageTotals(lang)
+        t.files, t.functions, t.loc, t.hard_to_maintain, t.unmaintainable = files, functions, loc, hard, unm
+        cb.totals[lang] = t
+    return Report(cb)
+
+
+def gen_figure(rnd, mag):
+    lo = 10 ** mag if mag else 0
+    return rnd.choice([lo, 10 ** (mag + 1) - 1, rnd.randint(lo, 10 ** (mag + 1) - 1)])
+
+
+def gen_totals_pair(rnd, mags):
+    """current / previous totals with figures of the given orders of magnitude per column (files, functions, loc, hard,
+    unmaintainable); the previous report differs by amounts of every smaller magnitude, lacks or adds a language sometimes"""
+    langs = rnd.sample(LANGS, rnd.choice([1, 2, 3, 3, 4, 6]))
+    cur = [[l] + [gen_figure(rnd, max(0, m - rnd.choice([0, 0, 0, 1, 2]))) for m in mags] for l in langs]
+    r = rnd.random()
+    if r < 0.15:
+        return cur, None
+    prev = []
+    for t in cur:
+        if rnd.random() < 0.12:
+            continue
+        q = [t[0]]
+        for x in t[1:]:
+            k = rnd.random()
+            d = 0 if k < 0.25 else rnd.choice([-1, 1]) * rnd.choice([1, 10 ** rnd.randint(0, max(0, len(str(x)) - 1)), rnd.randint(0, max(1, x))])
+            q.append(max(0, x + d))
+        prev.append(q)
+    if rnd.random() < 0.15:
+        prev.append(["Removed"] + [gen_figure(rnd, m) for m in mags])
+    rnd.shuffle(prev)
+    return cur, prev
+
+
+def overview_columns(cells):
+    """every text of every column of the text overview: header, cells, footer"""
+    ncol = len(HEADERS)
+    cols = [[HEADERS[j]] + [r[j] for r in cells["rows"]] for j in range(ncol)]
+    if cells["footer"] is not None:
+        for j in range(1, ncol):
+            cols[j].append(cells["footer"][j - 1])
+    return cols
+
+
+def run_width_case(cur_tot, prev_tot, widths, dist):
+    """SIZE x CONFIGURATION: figures up to 10^7 on consoles 40..300 wide. Where the console is wide enough to show every
+    word of the table (r5.fits_wrapped: rich may wrap `1200 (+100)` over two lines) every figure and every language name
+    must be shown completely, in its column; narrower consoles are counted as an observation only.
+    -> (input, model requests, observations, failures)"""
+    from codelimit.common.report import format_text
+    report = build_totals_report(cur_tot)
+    diff = build_totals_report(prev_tot) if prev_tot is not None else None
+    cur_s, prev_s = stored_totals(report), (stored_totals(diff) if diff is not None else None)
+    req = expected_overview(cur_s, prev_s)
+    cells, _p, _r = real_overview_text(report, diff, print_console=False)
+    inp = {"stream": "widths", "cur_totals": cur_tot, "prev_totals": prev_tot}
+    fails = []
+    if not meets(cells, req):
+        fails.append({"input": inp, "format": "text", "observed": cells, "required": req,
+                      "what": "overview does not show the stored figures / annotations / order / totals"})
+    md, _raw = real_overview_md(report, diff)
+    if not meets(md, req):
+        fails.append({"input": inp, "format": "markdown", "observed": md, "required": req,
+                      "what": "overview does not show the stored figures / annotations / order / totals"})
+    cols = overview_columns(cells) if cells["rows"] else None
+    for w in widths:
+        buf, con = console(w)
+        format_text.print_totals(con, report, diff)
+        raw = buf.getvalue()
+        if cols is None:
+            continue
+        if not r5.fits_wrapped(cols, w):
+            dist["too_narrow"] = dist.get("too_narrow", 0) + 1
+            shown = r5.column_streams(raw)
+            if not r5.streams_agree(shown, cells):
+                dist["too_narrow_truncated"] = dist.get("too_narrow_truncated", 0) + 1
+            continue
+        dist["wide_enough"] = dist.get("wide_enough", 0) + 1
+        shown = r5.column_streams(raw)
+        if not r5.streams_agree(shown, cells):
+            fails.append({"input": dict(inp, width=w), "observed": {"columns read from the console": shown and {"body": shown["body"], "footer": shown["footer"]}, "raw": raw},
+                          "required": {"columns": r5.cell_streams(cells)},
+                          "what": "on a console %d columns wide (wide enough for every word of the table) the text overview does not show every "
+                                  "language name and figure completely" % w})
+            break
+    reqs = [overview_request("text", cur_s, prev_s), overview_request("markdown", cur_s, prev_s)]
+    return inp, reqs, [cells, md], fails
+
+
+def gen_large_pair(rnd, counts=(200, 600, 1500)):
+    """real files with large line totals (10^4 .. 10^7 per file) and hundreds to thousands of functions, in 2 .. 4
+    languages, and a previous state that differs in every figure: the overview table is wider than 80 columns"""
+    langs = rnd.sample(LANGS[:8], rnd.choice([2, 3, 4]))
+    def one(scale):
+        files = []
+        for li, lang in enumerate(langs):
+            for k in range(rnd.choice([1, 2, 3])):
+                n = rnd.choice(list(counts)) + scale
+                ms = [["u%d" % j, j * 2 + 1, 0, j * 2 + 2, rnd.choice([5, 20, 31, 45, 61, 70])] for j in range(n)]
+                files.append(["d%d/g%d_%d.%s" % (k, li, k, EXT[lang]), lang, rnd.randint(10 ** 4, 10 ** 7) + scale, ms])
+        return files
+    return one(0), one(rnd.choice([7, 113]))
 
 
 def gen_findings(rnd, n_long):
@@ -618,31 +782,50 @@ def run_findings_case(files, cfg=None, cfg_label=None):
     return inps, reqs, obs, fails
 
 
-def run_command_case(cur, prev, repo, cfg=None):
+def run_command_case(cur, prev, repo, cfg=None, width=None, fresh=False, findings=True):
     """the same through report_command / findings_command on written reports; cfg = configuration of the process
-    that writes the reports and runs the commands (the reference numbers come from a build under the default one)"""
+    that writes the reports and runs the commands (the reference numbers come from a build under the default one);
+    width: console width (COLUMNS) - the text overview is then read column by column (cells may be wrapped) and judged
+    where the console is wide enough for every word; fresh: the CLI entry functions in a fresh interpreter"""
     if cfg:
         with h4.configured(**cfg):
-            report, diff, outs = with_commands(cur, prev, repo)
+            report, diff, outs = with_commands(cur, prev, repo, width, fresh, findings)
     else:
-        report, diff, outs = with_commands(cur, prev, repo)
+        report, diff, outs = with_commands(cur, prev, repo, width, fresh, findings)
     cur_tot = stored_totals(build_report(cur, repo))
     prev_tot = stored_totals(build_report(prev, repo)) if prev is not None else None
     units = stored_units(build_report(cur, repo))
     inp = {"stream": "commands", "cur": cur, "prev": prev, "repo": repo}
     if cfg:
         inp["cfg"] = cfg
+    if width:
+        inp["width"] = width
+    if fresh:
+        inp["fresh"] = True
     reqs, obs, fails = [], [], []
     req = expected_overview(cur_tot, prev_tot)
     for fmt in ("text", "markdown"):
         part = split_report_output(outs[("report", fmt, None)], fmt)
-        o = parse_text_table(part) if fmt == "text" else parse_md_table(part)
+        if fmt == "text" and width:
+            # cells of the table built from the reports as read back, then the console columns against them
+            o, _p, _r = real_overview_text(report, diff, print_console=False)
+            if o["rows"] and r5.fits_wrapped(overview_columns(o), width):
+                shown = r5.column_streams(part)
+                if not r5.streams_agree(shown, o):
+                    fails.append({"input": dict(inp, fmt=fmt), "observed": {"columns read from the console": shown and {"body": shown["body"], "footer": shown["footer"]}},
+                                  "required": {"columns": r5.cell_streams(o)}, "raw": part[-3000:],
+                                  "what": "report_command on a console %d columns wide (wide enough for every word of the table): the text overview "
+                                          "does not show every language name, figure and annotation of the comparison completely" % width})
+        else:
+            o = parse_text_table(part) if fmt == "text" else parse_md_table(part)
         if not meets(o, req):
             fails.append({"input": dict(inp, fmt=fmt), "observed": o, "required": req, "raw": part[-3000:],
                           "what": "report_command: overview does not show the stored figures"})
         reqs.append(overview_request(fmt, cur_tot, prev_tot))
         obs.append(o)
         for full in (False, True):
+            if ("findings", fmt, full) not in outs:
+                continue
             raw = outs[("findings", fmt, full)]
             o = parse_findings_text(raw) if fmt == "text" else parse_findings_md(raw, repo)
             r = expected_findings(units, full, fmt, repo)
@@ -814,6 +997,51 @@ def correspond(ctx):
         dist["commands"] += 1
         for i, (rq, o) in enumerate(zip(reqs, obs)):
             batch.append((dict(inp, part=i), rq, o, dec_overview if rq.startswith("overview") else dec_findings, "commands"))
+    # ---- totals-preserving pairs through the command (the comparison must not be judged by the totals alone)
+    rnd = ctx.rng("equal-totals")
+    for k in range(ctx.pick(24, 400)):
+        cur, prev = gen_equal_totals_pair(rnd)
+        inp, reqs, obs, f = run_command_case(cur, prev, rnd.random() < 0.3, None, rnd.choice([None, None, 120, 160, 200]))
+        fails += f
+        dist["commands_equal_totals"] = dist.get("commands_equal_totals", 0) + 1
+        for i, (rq, o) in enumerate(zip(reqs, obs)):
+            batch.append((dict(inp, part=i), rq, o, dec_overview if rq.startswith("overview") else dec_findings, "commands"))
+    # ---- the CLI entry functions in a fresh interpreter: --diff / --format / --full, console widths
+    rnd = ctx.rng("fresh-process")
+    for k in range(ctx.pick(3, 40)):
+        if k % 2 == 0:
+            cur, prev = gen_equal_totals_pair(rnd)
+        else:
+            cur, prev, _ = gen_pair(rnd)
+            cur = cur + gen_findings(rnd, rnd.choice([0, 10, 11, 25]))
+        inp, reqs, obs, f = run_command_case(cur, prev, rnd.random() < 0.5, None, rnd.choice([80, 100, 160, 250]), fresh=True, findings=ctx.thorough)
+        fails += f
+        dist["fresh_process_runs"] = dist.get("fresh_process_runs", 0) + 1
+        for i, (rq, o) in enumerate(zip(reqs, obs)):
+            batch.append((dict(inp, part=i), rq, o, dec_overview if rq.startswith("overview") else dec_findings, "commands-fresh-process"))
+    # ---- SIZE x CONFIGURATION: figures 10^0 .. 10^7 on consoles 40 .. 300 columns wide
+    rnd = ctx.rng("widths")
+    W = r5.rungs(ctx.pick([40, 60, 80, 100, 120, 160, 200, 300], list(range(40, 131, 5)) + [160, 200, 250, 300, 1000]), 30, 2000)
+    for k in range(ctx.pick(96, 1600)):
+        m = k % 8
+        mags = [m] * 5 if k % 3 == 0 else [rnd.randint(0, 7) for _ in range(5)]
+        cur_t, prev_t = gen_totals_pair(rnd, mags)
+        inp, reqs, obs, f = run_width_case(cur_t, prev_t, W, dist)
+        fails += f
+        dist["width_cases"] = dist.get("width_cases", 0) + 1
+        for fmt, rq, o in zip(("text", "markdown"), reqs, obs):
+            batch.append((dict(inp, fmt=fmt), rq, o, dec_overview, "widths-" + fmt))
+    # the same through report_command: large line totals and thousands of functions from real files, COLUMNS = 80 ...
+    for k in range(ctx.pick(4, 60)):
+        cur, prev = gen_large_pair(rnd, ctx.pick([150, 400, 1200], [200, 600, 1500, 5000]))
+        inp, reqs, obs, f = run_command_case(cur, prev, False, None, rnd.choice([80, 80, 100, 120]), findings=False)
+        fails += f
+        dist["commands_large_figures"] = dist.get("commands_large_figures", 0) + 1
+        for i, (rq, o) in enumerate(zip(reqs, obs)):
+            if rq.startswith("overview"):
+                batch.append(({"stream": "commands", "large": True, "width": inp.get("width"), "part": i, "cur": "see the oracle failure / regenerate with the seed"},
+                              rq, o, dec_overview, "commands-large"))
+    dist["console_widths"] = W if len(W) < 24 else "%d widths %d..%d" % (len(W), W[0], W[-1])
     rnd = ctx.rng("histories")
     for k in range(ctx.pick(150, 2000)):
         pool, repos = make_pool(rnd)
@@ -852,8 +1080,15 @@ def correspond(ctx):
                  "`*` + negation; repository; verbose; all); every 20th pair also on consoles 100 / 160 / 1000 wide where the table fits; "
                  "%d histories of 3..8 renderings over a pool of three Report objects (overview alone / against another / against itself, "
                  "findings) judged against the snapshot taken when the objects were built; "
+                 "round 5: about a tenth of the pairs, %d further command runs and every second of %d runs of the CLI entry functions report / findings in a fresh interpreter have a previous "
+                 "report with the SAME five totals and other per-language figures (files moved between languages); %d totals pairs with figures of "
+                 "10^0..10^7 per column (all columns of one magnitude, or mixed) rendered as text on consoles %s wide and read back column by column (wrapped "
+                 "cells joined): complete wherever the console is wide enough for every word of the table; %d report_command runs on reports with "
+                 "thousands of functions and 10^4..10^7 lines at COLUMNS 80..120; widths also get the rungs of integer literals new in the source under check; "
                  "non-trivial = distinct diffs with >= 2 current languages, and codebases with more than 10 findings"
-                 % (len(pairs), len(dist["findings_by_count"]) and sum(dist["findings_by_count"].values()), dist["commands"], dist.get("histories", 0))),
+                 % (len(pairs), len(dist["findings_by_count"]) and sum(dist["findings_by_count"].values()), dist["commands"], dist.get("histories", 0),
+                    dist.get("commands_equal_totals", 0), dist.get("fresh_process_runs", 0), dist.get("width_cases", 0), dist.get("console_widths"),
+                    dist.get("commands_large_figures", 0))),
         "samples": samples, "exhaustive": False, "distribution": dist,
         "disagreements": dis[:50], "oracle_failures": fails[:50],
         "generated_hashes": {"Gen/Logic.lean": _sha(os.path.join(common.LEAN, "CodeLimit", "Gen", "Logic.lean"))},
@@ -898,7 +1133,12 @@ def replay(payload):
         if c.get("repository") is not None:
             c["repository"] = tuple(c["repository"])
         return c
-    if inp["stream"] == "overview":
+    if inp["stream"] == "widths":
+        f = run_width_case(inp["cur_totals"], inp["prev_totals"], [inp["width"]] if "width" in inp else [40, 60, 80, 100, 120, 160, 200, 300], {})[3]
+    elif inp["stream"] == "commands" and not isinstance(inp.get("cur"), list):
+        print("summary only")
+        return True
+    elif inp["stream"] == "overview":
         with h4.configured(**cfg_of(inp)):
             f = run_overview_case(inp["cur"], inp["prev"], widths=[inp["width"]] if "width" in inp else ())[3]
     elif inp["stream"] == "findings":
@@ -909,7 +1149,7 @@ def replay(payload):
             return True
         f = run_history(inp["pool"], inp["repos"], inp["ops"])[4]
     else:
-        f = run_command_case(inp["cur"], inp["prev"], inp["repo"], cfg_of(inp) or None)[3]
+        f = run_command_case(inp["cur"], inp["prev"], inp["repo"], cfg_of(inp) or None, inp.get("width"), bool(inp.get("fresh")))[3]
     for x in f[:3]:
         print("still fails: %s\n observed %s\n required %s" % (x.get("what"), x.get("observed"), x.get("required")))
     return not f
